@@ -80,4 +80,13 @@ theorem C20_wiring :
     Sso.Generated.skel_auth_SignInPage =
       ["call:WriteHeader", "call:TrimPrefix", "call:ResolveReference", "call:Query", "call:Get", "call:Parse", "call:Data", "call:Data", "call:String", "call:ExecuteTemplate"] := by decide
 
+/-- Tie (T1): none of html/template's *trusted content* types (`template.HTML`, `JS`, `URL`, … — values written without
+escaping) is used anywhere in the services' sources: every value a template receives is escaped for its context. -/
+theorem C20_no_trusted_template_types : Sso.Generated.trustedTemplateTypes = [] := by decide
+
+/-- Tie (T1): the authenticator's `ErrorResponse` has two branches only — JSON (marshalled) and the HTML template — and sets
+the status after choosing. -/
+theorem C20_skeleton_ErrorResponse : Sso.Generated.skel_auth_ErrorResponse =
+    ["call:NewLogEntry", "call:Get", "if{", "store:response.Error", "call:writeJSONResponse", "}", "else{", "call:StatusText", "call:WithHTTPStatus", "call:WithPageTitle", "call:WithPageMessage", "call:Info", "call:WriteHeader", "call:ExecuteTemplate", "}"] := by decide
+
 end Sso.Html
